@@ -49,9 +49,10 @@ class Resp:
 
 
 class Drv:
-    def __init__(self, binary, voc="core", track_alloc=False, timeout=20.0, env=None, detect_leaks=False):
+    def __init__(self, binary, voc="core", track_alloc=False, timeout=30.0, env=None, detect_leaks=False, cmd_timeout=10):
         self.binary, self.voc, self.track, self.timeout = binary, voc, track_alloc, timeout
-        self.extra_env = env or {}
+        self.extra_env = dict(env or {})
+        self.extra_env.setdefault("ZWDRV_CMD_TIMEOUT", str(cmd_timeout))
         self.detect_leaks = detect_leaks
         self.p = None
         self.restarts = 0
@@ -62,7 +63,7 @@ class Drv:
     def start(self):
         env = dict(os.environ)
         self.logbase = os.path.join(LOGDIR, "san.%d.%d" % (os.getpid(), self.restarts))
-        env["ASAN_OPTIONS"] = "log_path=%s:detect_leaks=%d:abort_on_error=1:allocator_may_return_null=1:detect_stack_use_after_return=0" % (
+        env["ASAN_OPTIONS"] = "log_path=%s:detect_leaks=%d:abort_on_error=1:allocator_may_return_null=1:detect_stack_use_after_return=0:hard_rss_limit_mb=3000" % (
             self.logbase, 1 if self.detect_leaks else 0)
         env["UBSAN_OPTIONS"] = "log_path=%s:print_stacktrace=1:halt_on_error=1" % self.logbase
         env["LSAN_OPTIONS"] = "log_path=%s" % self.logbase
@@ -73,6 +74,7 @@ class Drv:
         self.p = subprocess.Popen([self.binary, self.voc], stdin=subprocess.PIPE, stdout=subprocess.PIPE,
                                   stderr=subprocess.DEVNULL, env=env, bufsize=0)
         self.buf = b""
+        self.inflight, self.nwritten, self.bytes_out = [], 0, 0
         self.restarts += 1
         if self.setup_cmds:
             cmds = list(self.setup_cmds)
@@ -126,22 +128,35 @@ class Drv:
                 pass
         return log
 
-    def _batch(self, cmds, restart_on_crash=True):
-        out = []
-        i, n = 0, len(cmds)
-        while i < n:
-            j, size = i, 0
-            while j < n and (j == i or size + len(cmds[j]) + 1 <= 48000):
-                size += len(cmds[j]) + 1
-                j += 1
-            data = ("\n".join(cmds[i:j]) + "\n").encode("latin-1")
-            crashed, kind = False, None
+    # ---- pipelined interface: send() queues commands, recv(n) returns n responses in order
+    def send(self, cmds):
+        """Queue commands.  At most ~48 KB may be in flight (pipe capacity), or the call drains first."""
+        for c in cmds:
+            self.inflight.append(c)
+        self._pump()
+
+    def _pump(self):
+        # write as many not-yet-written commands as fit into the in-flight byte budget
+        while self.nwritten < len(self.inflight):
+            c = self.inflight[self.nwritten]
+            if self.bytes_out and self.bytes_out + len(c) + 1 > 48000:
+                return
             try:
-                self.p.stdin.write(data)
+                self.p.stdin.write((c + "\n").encode("latin-1"))
             except (BrokenPipeError, OSError):
                 pass
-            cur, stderr, mem, done = [], b"", None, 0
-            while done < j - i:
+            self.bytes_out += len(c) + 1
+            self.nwritten += 1
+
+    def recv(self, n, restart_on_crash=True):
+        out = []
+        while len(out) < n:
+            if not self.inflight:
+                raise RuntimeError("recv without matching send")
+            self._pump()
+            cur, stderr, mem = [], b"", None
+            crashed, kind = False, None
+            while True:
                 line = self._readline(time.time() + self.timeout)
                 if line is None:
                     crashed, kind = True, "timeout"
@@ -151,17 +166,18 @@ class Drv:
                     break
                 s = line[:-1].decode("latin-1")
                 if s == ".":
-                    out.append(Resp(cur, stderr, mem))
-                    cur, stderr, mem = [], b"", None
-                    done += 1
+                    break
                 elif s.startswith("s "):
                     stderr += unhx(s[2:])
                 elif s.startswith("m "):
                     mem = int(s[2:])
                 else:
                     cur.append(s)
+            c = self.inflight.pop(0)
+            self.nwritten -= 1
+            self.bytes_out -= len(c) + 1
             if not crashed:
-                i = j
+                out.append(Resp(cur, stderr, mem))
                 continue
             try:
                 self.p.kill()
@@ -173,10 +189,23 @@ class Drv:
             if kind == "crash":
                 kind = "crash rc=%s" % rc
             out.append(Resp(cur, stderr, None, crash=(kind, log)))
-            i += done + 1
             if not restart_on_crash:
                 raise RuntimeError("driver died: %s\n%s" % (kind, log))
-            self.start()
+            pending = self.inflight
+            self.inflight = []
+            self.start()            # replays setup commands
+            self.inflight = pending
+            self.nwritten = 0
+            self.bytes_out = 0
+        return out
+
+    def _batch(self, cmds, restart_on_crash=True):
+        out = []
+        for c in cmds:
+            self.send([c])
+            while self.nwritten < len(self.inflight):
+                out.extend(self.recv(1, restart_on_crash))
+        out.extend(self.recv(len(self.inflight), restart_on_crash))
         return out
 
     def batch(self, cmds):
@@ -200,6 +229,5 @@ def run_cmd(q, p=None, i=None, nosimp=False, lim=None):
         c += " i=" + i
     if nosimp:
         c += " nosimp"
-    if lim is not None:
-        c += " lim=%d" % lim
+    c += " lim=%d" % (200 if lim is None else lim)
     return c
